@@ -24,7 +24,7 @@ ID = 'C09'
 HASHSEED_IS_VIOLATION = False
 
 TIERS = {
-    'quick': {'runs': 4800, 'replica_runs': 160, 'hash_seeds': [1, 4242], 'timeout_s': 420,
+    'quick': {'runs': 24000, 'replica_runs': 400, 'hash_seeds': [1, 4242], 'timeout_s': 420,
               'shrink_s': 40},
     'thorough': {'runs': 120000, 'replica_runs': 1600, 'hash_seeds': [1, 7, 99, 4242, 31337, 2**31],
                  'timeout_s': 3000, 'shrink_s': 120},
